@@ -66,6 +66,57 @@ fn streams(rng: &mut crate::rec::Rng, words_per_candidate: usize) -> Vec<(String
     out
 }
 
+/// scripts whose candidates are built from the bound itself: the bound, its neighbours, and the bound with one 64-bit
+/// digit raised and another lowered (the most significant differing digit decides, whatever the lower ones say); every
+/// script ends in zero words so that the sampler always terminates
+fn near_bound_streams(b: &BigUint) -> Vec<(String, Vec<u32>)> {
+    let bits = b.bits();
+    if bits < 65 {
+        return vec![];
+    }
+    let w = ((bits + 31) / 32) as usize;
+    let rem = (bits % 32) as u32;
+    let enc = |c: &BigUint| -> Vec<u32> {
+        // the words gen_biguint(bits) must read to produce c (< 2^bits): little-endian, top word shifted up
+        let mut ws = c.to_u32_digits();
+        ws.resize(w, 0);
+        if rem != 0 {
+            ws[w - 1] <<= 32 - rem;
+        }
+        ws
+    };
+    let one = BigUint::from(1u8);
+    let lim = &one << bits;
+    let nd = ((bits + 63) / 64) as usize;
+    let mut cands: Vec<(String, BigUint, BigUint)> = vec![];   // (name, rejected-or-accepted first candidate, second candidate)
+    for i in 0..nd {
+        for j in 0..nd {
+            if i == j {
+                continue;
+            }
+            // digit i raised by one, digit j lowered by one
+            let up = &one << (64 * i);
+            let down = &one << (64 * j);
+            if b >= &down {
+                let c = b + &up - &down;
+                if c < lim {
+                    cands.push((format!("near_up{}_down{}", i, j), c, b - &one));
+                }
+            }
+        }
+    }
+    cands.push(("near_eq".into(), b.clone(), b - &one));
+    cands.push(("near_above".into(), (b + &one) % &lim, b >> 1u32));
+    let mut out = vec![];
+    for (name, c1, c2) in cands {
+        let mut s = enc(&c1);
+        s.extend(enc(&c2));
+        s.extend(std::iter::repeat(0).take(2 * w + 2));
+        out.push((name, s));
+    }
+    out
+}
+
 fn used_json(s: &Script) -> String {
     words_json(&s.used)
 }
@@ -118,6 +169,10 @@ pub fn run(r: &mut Rec) {
     for len in [1usize, 2, 3, 5] {
         bounds.push(BigUint::from_bytes_le(&le_bytes(&digits(&mut rng, len, Pat::Random))));
     }
+    // multi-digit bounds with small, middling and full digits in every position
+    bounds.push(BigUint::from_bytes_le(&le_bytes(&[9, 7, 5])));
+    bounds.push(BigUint::from_bytes_le(&le_bytes(&[u64::MAX - 3, 1, 1 << 40, 3])));
+    bounds.push(BigUint::from_bytes_le(&le_bytes(&[5, u64::MAX, 0, 1 << 63])));
     for (k, b) in bounds.iter().enumerate() {
         if !r.case(&format!("bound {}", k)) {
             continue;
@@ -125,7 +180,9 @@ pub fn run(r: &mut Rec) {
         let mut rg = r.case_rng();
         let bd = b.verif_raw().to_vec();
         load_u(r, 1, &bd);
-        for (name, script) in streams(&mut rg, (b.bits() as usize + 31) / 32) {
+        let mut all = streams(&mut rg, (b.bits() as usize + 31) / 32);
+        all.extend(near_bound_streams(b));
+        for (name, script) in all {
             r.op("gen_biguint_below", &name, &[u(1)], &[u(2)], "", |g| {
                 let mut s = Script::new(script.clone());
                 g.u[2] = s.gen_biguint_below(&g.u[1]);
@@ -136,7 +193,7 @@ pub fn run(r: &mut Rec) {
     // ranges: width 1, powers of two, negative, zero-crossing, lbound = 0 and ubound = 0, empty and inverted
     let mut ranges: Vec<(BigInt, BigInt)> = vec![];
     let b = |v: i64| BigInt::from(v);
-    for (lo, hi) in [(0i64, 1i64), (0, 2), (5, 6), (-1, 0), (-2, 0), (-7, 0), (-100, 0), (-1, 1), (-5, 7), (-256, -255), (-300, -100), (3, 3), (4, 3), (0, 0), (-2, -2), (-1, -3),
+    for (lo, hi) in [(0i64, 1i64), (0, 2), (5, 6), (-1, 0), (-2, 0), (-7, 0), (-100, 0), (-1, 1), (-5, 7), (-256, -255), (-300, -100), (3, 3), (4, 3), (0, 0), (-2, -2), (-1, -3), (0, -5), (7, 0), (0, -1), (1, 0), (5, -5),
                      (0, 255), (0, 256), (0, 257), (-255, 0), (-256, 0), (-257, 0), (1, 1 << 40)] {
         ranges.push((b(lo), b(hi)));
     }
